@@ -97,6 +97,7 @@ def check_includes(hdrs, std, form, workdir, case, deep=True):
 def header_shard(arg):
     h, quick = arg
     st = Stats()
+    per_config = {}
     d = tempfile.mkdtemp(prefix="c19_")
     try:
         for std, form in [("c99", "list"), ("c11", "list"), ("gnu99", "list"), ("gnu11", "list"), ("default", "str")]:
@@ -107,11 +108,23 @@ def header_shard(arg):
             deep = (not quick) or (std, form) in (("c11", "list"), ("default", "str"))
             try:
                 names = check_includes([h], std, form, d, ("includes", [h], std, form), deep=deep)
+                per_config[(std, form)] = set(names)
                 if names:
                     st.nontrivial += 1
                 st.notes["typedef_uses_checked"] = st.notes.get("typedef_uses_checked", 0) + 3 * len(names)
             except CheckFailure as f:
                 st.failures.append(f.failure)
+        # the type names a header defines must not depend on the dialect or on the
+        # argument form ("every type name the fake headers define is usable as a
+        # type" under each of them)
+        if len(per_config) >= 2:
+            union = set().union(*per_config.values())
+            for cfgk, names in sorted(per_config.items()):
+                missing = sorted(union - names)
+                if missing:
+                    st.failures.append(dict(subcheck="typedef-use", case=("names", [h], list(cfgk)), text="#include <%s>  -std=%s form=%s" % (h, cfgk[0], cfgk[1]),
+                                            detail="type names defined by the header under another dialect/argument form are missing here: %s%s" % (missing[:8], " ..." if len(missing) > 8 else ""), sig="names-depend-on-dialect"))  # fmt: skip
+                    break
     finally:
         shutil.rmtree(d, ignore_errors=True)
     if h in ("stdio.h", "X11/Xlib.h", "sys/socket.h"):
@@ -157,6 +170,12 @@ def run(ctx):
 
 
 def replay(subcheck, case):
+    if case[0] == "names":
+        r = header_shard((case[1][0], True))
+        bad = [f for f in r.failures if f["sig"] == "names-depend-on-dialect"]
+        if bad:
+            raise CheckFailure(**bad[0])
+        return
     _, hdrs, std, form = case
     d = tempfile.mkdtemp(prefix="c19r_")
     try:
